@@ -24,6 +24,13 @@ history:   spec/DebFileCache.tla -- the query part as a history over TWO open pa
            DebError comes out, nothing changes; afterwards the ordinary history carries on).  Negative controls:
            GetMemberRewinds (getmember / [] rewinds the member it returns: ReadEnd garbage), LazyScanDiesOnFault
            (has_file walks the tarball lazily with one persistent iterator that a fault finalises).
+           Round 7: Close (DebFile.close(), leaving a `with` block, __exit__, the close() of one part or of both) is an
+           ORDINARY step of every history: it leaves NO trace -- a reader opened by file name lets go of its file and opens
+           it again on demand, a caller's file object is left alone --, so every later query on either part and the
+           remainder of a get_file() stream obtained BEFORE the close give the stateless answer.  In the domain: the
+           statement says "returns the same ..." without excepting a reader that was closed, the library documents no
+           "closed" state and re-opens on demand on the unchanged tree in every opening mode.  Negative control:
+           CloseForgetsPosition (the re-opened member starts at its first byte: ReadEnd / get_content garbage).
 fault domain (FaultDomOf of DebFileCache.tla, printed as FDOM line, checked by TLC in the sessions): a fault is specified
            to leave no trace when the part's tarball has been opened by an earlier successful query AND the part is
            stored uncompressed (tarfile reads header by header through ArMember, which seeks before every read).
@@ -99,8 +106,16 @@ then has_file then get_file().read() on the same file ...):
   DebFile(path, 'r')  (positional)               all legs ("filename-pos")
   user subclass of DebFile(filename=, mode='r')  all legs ("subclass")
   mode other than 'r'                            out of domain: ArFile documents 'r' as the only supported mode
-  with DebFile(...) as d / __enter__ / __exit__  replay: every third package is entered and left as a context manager
-  close()                                        replay, histories (re-open closes the old object), sessions
+  with DebFile(...) as d / __enter__ / __exit__  replay: every third package is entered and left as a context manager; all legs: a
+                                                 `with` block entered and LEFT in the middle of the history, the object used on
+  close()                                        all legs, as ordinary steps (c07_obs.CLOSE_WAYS: close(), close() twice, `with`
+                                                 exit, __exit__, control.close() + data.close(), one part's close()): 1..3 per
+                                                 replayed table, ~9 % of the steps of the HTAB histories and the recorded
+                                                 sessions (22 % while a get_file() stream of that object is half read), every
+                                                 third disturbance between the chunks of a chunked read, 0..3 per recorded
+                                                 single-package trace; afterwards has_file / get_content / get_file().read() /
+                                                 the rest of a stream obtained before / scripts / md5sums / debcontrol carry on
+  DebPart.close()                                as above ("parts", "control", "data")
   .control / .data                               all legs;  .version: diagnostic (drift) only -- not in the statement
   DebPart.tgz()                                  access path 5 (tgz().extractfile('./name').read()), tgz().getnames() in the listing check
   has_file(name)                                 all legs, always together with `name in part` and part.__contains__(name)
@@ -155,7 +170,7 @@ import c07_payload as P
 
 MANIFEST = dict(
     technique="TLA+ specs (DebPayload: character-class model of the control / md5sums text, statement level vs. transcription of Deb822(bytes) and md5sums(); DebFile: statement-level WellFormed/packed maps + transcription of DebFile.__init__/DebPart; DebFileCache: query histories over two open packages with explicit caches) model-checked by TLC over all member-name subsets, bounded member orders and all small contents; every configuration built as a real .deb and opened by DebFile; recorded random packages validated by TLC (TraceDebFile)",
-    text="TLC enumerates every subset of a 15-name member universe (debian-binary, control.tar and data.tar with none/gz/bz2/xz/lzma, four foreign names) and every injective member sequence up to length 3 (quick) / 4, and 5 over a 9-name sub-universe (thorough) and checks accept <=> has debian-binary and exactly one control and one data candidate, independence of member order, equality of the answers for 'n', './n', '/n' and that every query returns the packed blob, for every subset of the five maintainer scripts and every small data/md5sums map. Each CASE line is built as a real package and DebFile must answer Ok / DebError as TLC says (any other exception type is a violation); each PROBE line is concretised (names with spaces, non-ASCII, nested directories; binary, empty, NUL contents) and the complete table of has_file / in / get_content / get_file / [] answers, scripts(), md5sums(), debcontrol() is compared; random packages with random orders, foreign members and defects are recorded and validated by TLC. A history layer (DebFileCache) models two packages open at once with the caches an implementation might keep, caller-side mutation of returned dictionaries and rewrite + re-open of a path, and TLC checks that every answer in every history equals the stateless one; accordingly all queries are issued repeatedly, shuffled and interleaved between parts, spellings, access paths and two simultaneously open packages with equal file names, in replay and in recorded sessions. A payload layer (DebPayload) models the text of the control and md5sums files at character-class level (blank, VT/FF, FS..RS/NEL/LS/PS, NBSP.., LF, CR, non-space): TLC checks that Deb822(bytes) and md5sums() in both flavours return the packed value / file name for every shape in the domain (look-alike line boundaries followed by a blank inside control values; white space of every kind inside and at the end of file names) and prints the shapes; all concretisations draw file names and control values from them, and the payload leg runs every class of shape in the model's own frame. Line ends of the control and md5sums files and ar member starts are aligned to powers of two in a share of the cases, and packages are opened through thirteen kinds of file object. The history layer also reads files in two steps with arbitrary other steps in between, calls the ArFile interface DebFile inherits (getmember, [], getmembers, getnames, iteration: the model says they leave every part alone) and lets the caller-supplied file object raise once during a query (OSError, ValueError, KeyError, a private class, at the k-th read): the caller's exception or DebError must come out and every later answer must be the stateless one.",
+    text="TLC enumerates every subset of a 15-name member universe (debian-binary, control.tar and data.tar with none/gz/bz2/xz/lzma, four foreign names) and every injective member sequence up to length 3 (quick) / 4, and 5 over a 9-name sub-universe (thorough) and checks accept <=> has debian-binary and exactly one control and one data candidate, independence of member order, equality of the answers for 'n', './n', '/n' and that every query returns the packed blob, for every subset of the five maintainer scripts and every small data/md5sums map. Each CASE line is built as a real package and DebFile must answer Ok / DebError as TLC says (any other exception type is a violation); each PROBE line is concretised (names with spaces, non-ASCII, nested directories; binary, empty, NUL contents) and the complete table of has_file / in / get_content / get_file / [] answers, scripts(), md5sums(), debcontrol() is compared; random packages with random orders, foreign members and defects are recorded and validated by TLC. A history layer (DebFileCache) models two packages open at once with the caches an implementation might keep, caller-side mutation of returned dictionaries and rewrite + re-open of a path, and TLC checks that every answer in every history equals the stateless one; accordingly all queries are issued repeatedly, shuffled and interleaved between parts, spellings, access paths and two simultaneously open packages with equal file names, in replay and in recorded sessions. A payload layer (DebPayload) models the text of the control and md5sums files at character-class level (blank, VT/FF, FS..RS/NEL/LS/PS, NBSP.., LF, CR, non-space): TLC checks that Deb822(bytes) and md5sums() in both flavours return the packed value / file name for every shape in the domain (look-alike line boundaries followed by a blank inside control values; white space of every kind inside and at the end of file names) and prints the shapes; all concretisations draw file names and control values from them, and the payload leg runs every class of shape in the model's own frame. Line ends of the control and md5sums files and ar member starts are aligned to powers of two in a share of the cases, and packages are opened through thirteen kinds of file object. The history layer also reads files in two steps with arbitrary other steps in between, calls the ArFile interface DebFile inherits (getmember, [], getmembers, getnames, iteration: the model says they leave every part alone) and lets the caller-supplied file object raise once during a query (OSError, ValueError, KeyError, a private class, at the k-th read): the caller's exception or DebError must come out and every later answer must be the stateless one. close() / leaving a with block / a part's close() are ordinary steps of all histories (the model: no trace; a reader opened by file name opens its file again on demand): the object is used on afterwards, including streams obtained from get_file() before the close.",
     note="Payload fidelity through tarfile/compressors is sampled (seeded), structure is enumerated. Member lists whose verdict hinges on zst support (not in PART_EXTS of this tree) are unspecified: executed, either verdict accepted. Which exception reports an absent file in get_content (KeyError today) and the key type of md5sums() are diagnostic. Control values with VT FF FS GS RS NEL LS PS not followed by white space (DESIGN D1: debcontrol() raises ValueError) and md5sums entries of names that start with white space are unspecified: run, compared with the code-level model, never a verdict. A fault of the caller's file object is specified to leave no trace only for an UNCOMPRESSED part whose tarball an earlier query has opened (FaultDomOf, decided by TLC); elsewhere tarfile.open / gzip / the BufferedReader inside LZMAFile and BZ2File are themselves not restartable: those faults are executed, the object is opened again, nothing it says in between is a verdict; early EOF / short reads are not generated. Trusted: TLC, tarfile/gzip/bz2/lzma/hashlib, the ar writer, dpkg-deb and ar where present.",
     design="5 (C07)")
 
@@ -165,7 +180,7 @@ PARTS = ["control", "data"]
 
 from c07_obs import (classify, open_deb, drop, finish, pick_how, obs_has, obs_get, obs_md5, obs_scripts,  # noqa: E402
                      obs_ctl, obs_listing, mutate_result, take_how_count, N_ACCESS, MD5_WAYS, HOWS_SHARED, HOWS_NAMED,
-                     HOWS_KINDS, HOWS_FLAKY, ar_glance)
+                     HOWS_KINDS, HOWS_FLAKY, ar_glance, obs_close, CLOSE_WAYS)
 
 
 # ------------------------------------------------------------------ spec -> code
@@ -228,7 +243,12 @@ def check_content(deb, probe, conc, rng, level, drift=None):
         at = sorted(rng.randint(0, len(steps)) for _ in range(3))
         for k, st in enumerate([("d", op, enc), ("mutate",), ("d", op, enc)]):
             steps.insert(at[k] + k, st)
+    # close() / `with` exit / a part's close() as ordinary steps: the object is used on (DebFileCache.tla: Close
+    # leaves no trace -- a reader opened by file name opens its file again on demand)
+    for _ in range(rng.choice([1, 2, 2, 3])):
+        steps.insert(rng.randint(1, len(steps)), ("close", rng.choice(sorted(CLOSE_WAYS))))
     keep = []
+    ndist = [0]
 
     def disturb():
         # other queries on both parts while a file object is half read
@@ -238,7 +258,15 @@ def check_content(deb, probe, conc, rng, level, drift=None):
         except Exception:
             pass
         ar_glance(deb)      # DebFile is an ArFile: getmember / [] / getmembers / getnames / iteration only look
+        ndist[0] += 1
+        if ndist[0] % 3 == 0:           # ... and the object is closed while a stream obtained before is half read
+            obs_close(deb, sorted(CLOSE_WAYS)[ndist[0] // 3 % len(CLOSE_WAYS)])
     for st in steps:
+        if st[0] == "close":
+            err = obs_close(deb, st[1])
+            if err:
+                return "close() [%s] on an object that is used on afterwards: %s" % (st[1], err)
+            continue
         if st[0] == "mutate":
             if keep:
                 mutate_result(keep[0])
@@ -484,6 +512,10 @@ def record_trace(rng, work, given=None):
                     at = sorted(rng.randint(0, len(calls)) for _ in range(3))
                     for k, cl in enumerate([[op, enc], ["mutate"], [op, rng.choice([enc, rng.choice(MD5_WAYS)])]]):
                         calls.insert(at[k] + k, cl)
+            # close() / `with` exit / a part's close() in between; the object is used on (DebFileCache.tla: Close
+            # changes nothing a later call answers, so it is no event of the single-package trace)
+            for _ in range(rng.choice([0, 1, 2, 2, 3])):
+                calls.insert(rng.randint(1, len(calls)), ["close", rng.choice(sorted(CLOSE_WAYS))])
         keep = []
         packed = {"control": dict(conc.cfiles), "data": dict(conc.dfiles)}
 
@@ -499,6 +531,9 @@ def record_trace(rng, work, given=None):
             if op == "mutate":          # not an event: the caller's own business
                 if keep:
                     mutate_result(keep[0])
+                continue
+            if op == "close":           # not an event either (see above); what matters is what is answered afterwards
+                obs_close(deb, cl[1])
                 continue
             if op in ("has", "get"):
                 _, p, sp, n, variant = cl
@@ -622,7 +657,7 @@ NEGATIVE = [("MC_DebFile_neg_first.cfg", "AcceptIffWellFormed"), ("MC_DebFile_ne
             ("MC_DebFile_neg_info.cfg", "AcceptIffWellFormed")]
 NEGATIVE_HIST = [("MC_DebFileCache_neg_name.cfg", "HistExact"), ("MC_DebFileCache_neg_alias.cfg", "HistExact"),
                  ("MC_DebFileCache_neg_content.cfg", "HistExact"), ("MC_DebFileCache_neg_rewind.cfg", "HistExact"),
-                 ("MC_DebFileCache_neg_scan.cfg", "HistExact")]
+                 ("MC_DebFileCache_neg_scan.cfg", "HistExact"), ("MC_DebFileCache_neg_close.cfg", "HistExact")]
 NEGATIVE_PAYLOAD = [("MC_DebPayload_neg_split.cfg", "CtlExact"), ("MC_DebPayload_neg_strip.cfg", "Md5Exact"),
                     ("MC_DebPayload_neg_lines.cfg", "Md5Exact")]
 C1 = ["-XX:TieredStopAtLevel=1"]
@@ -880,6 +915,7 @@ def run(ctx):
         "payload (names, bytes, control values) is sampled with the run's seed; the exception type for get_content of an absent file and the key type of md5sums() are diagnostic",
         "trusted: TLC, tarfile/gzip/bz2/lzma/hashlib, the ar writer, dpkg-deb / ar (thorough)",
         "faults of the caller-supplied file object (one exception at the k-th read): verdicts only for uncompressed parts whose tarball is already open (DebFileCache.tla: FaultDomOf); unopened or compressed parts are unspecified (the standard library's tarfile.open / gzip / BufferedReader-in-LZMAFile are not restartable) -- executed, then the object is opened again; early EOF / short reads are not generated (a truncated package)",
+        "close() / `with` exit / DebPart.close() do not end the life of the object: the reader re-opens on demand (DebFileCache.tla: Close leaves no trace), every later answer is a verdict in every opening mode",
         "ArFile-level calls on a DebFile only inspect the member table (name, size); reading through a member obtained that way is the caller's own interference with the part: out of domain",
     ]
     if not B.UTF8_FS:
@@ -1200,9 +1236,9 @@ def _run(ctx, quick, rng, W, nproc, procs, pool, timeout, timing, lap):
     ctx.extra["payload_drawn"] = {k: v for k, v in sorted(stats.items()) if k.startswith(("value:", "name:"))}
     ctx.extra["history_steps_per_kind"] = {k[5:]: v for k, v in sorted(stats.items()) if k.startswith("step:")}
     ctx.extra["session_events_per_kind"] = {k[6:]: v for k, v in sorted(stats.items()) if k.startswith("event:")}
-    if not stats.get("step:fault-in-domain") or not stats.get("step:ar") or not stats.get("step:re"):
+    if not stats.get("step:fault-in-domain") or not stats.get("step:ar") or not stats.get("step:re") or not stats.get("step:close"):
         ctx.drift("history leg without %s steps in this run" % "/".join(
-            k for k in ("fault-in-domain", "ar", "re") if not stats.get("step:" + k)))
+            k for k in ("fault-in-domain", "ar", "re", "close") if not stats.get("step:" + k)))
     missing = [k for k in HOWS_SHARED + HOWS_NAMED + HOWS_KINDS + HOWS_FLAKY if not stats.get("how:" + k)]
     if missing:
         ctx.drift("file-object kinds not drawn in this run: %s" % ", ".join(missing))
